@@ -71,24 +71,26 @@ var faults = []struct {
 	step      int
 	scramOnly bool
 	framed    bool // only meaningful with framed SaslAuthenticate (an error code needs a response header)
+	rawOnly   bool // only meaningful with raw authentication bytes (handshake v0)
 }{
-	{"none", -1, false, false},
-	{"unsupported-mech", 0, false, false},
-	{"handshake-code", 0, false, false},
-	{"close-handshake", 0, false, false},
-	{"wrong-password", 1, false, false}, // SCRAM: detected with the proof, round 2
-	{"unknown-user", 1, false, false},   // SCRAM: rejected with the proof, round 2
-	{"unknown-user-early", 1, true, false},
-	{"close-auth1", 1, false, false},
-	{"auth-code1", 1, false, true},
-	{"malformed-server-first", 1, true, false},
-	{"bad-nonce", 1, true, false},
-	{"low-iterations", 1, true, false},
-	{"close-auth2", 2, true, false},
-	{"auth-code2", 2, true, true},
-	{"wrong-server-sig", 2, true, false},
-	{"malformed-server-final", 2, true, false},
-	{"server-final-error", 2, true, false},
+	{"none", -1, false, false, false},
+	{"unsupported-mech", 0, false, false, false},
+	{"handshake-code", 0, false, false, false},
+	{"close-handshake", 0, false, false, false},
+	{"wrong-password", 1, false, false, false}, // SCRAM: detected with the proof, round 2
+	{"unknown-user", 1, false, false, false},   // SCRAM: rejected with the proof, round 2
+	{"unknown-user-early", 1, true, false, false},
+	{"close-auth1", 1, false, false, false},
+	{"cut-raw-auth1", 1, false, false, true}, // the raw answer of round 1 ends after a part of the bytes it announced
+	{"auth-code1", 1, false, true, false},
+	{"malformed-server-first", 1, true, false, false},
+	{"bad-nonce", 1, true, false, false},
+	{"low-iterations", 1, true, false, false},
+	{"close-auth2", 2, true, false, false},
+	{"auth-code2", 2, true, true, false},
+	{"wrong-server-sig", 2, true, false, false},
+	{"malformed-server-final", 2, true, false, false},
+	{"server-final-error", 2, true, false, false},
 }
 
 func failStep(c authCase) int {
@@ -120,6 +122,9 @@ func product() []combo {
 					continue
 				}
 				if f.framed && hs == 0 {
+					continue
+				}
+				if f.rawOnly && hs != 0 {
 					continue
 				}
 				for _, e := range entries {
@@ -200,6 +205,9 @@ func run(tb ev.TB, c authCase) {
 		delete(cfg.Users, user)
 		cfg.Users[user+"~other"] = pass
 		cfg.EarlyUnknownUser = c.Fault == "unknown-user-early"
+	case "cut-raw-auth1":
+		cfg.TruncateRawAtStep, cfg.TruncateRawAnnounce = 1, 4+int(c.Code)%60
+		cfg.TruncateRawSend = int(c.Last) % cfg.TruncateRawAnnounce
 	case "close-auth1":
 		cfg.CloseAtStep = 1
 	case "close-auth2":
@@ -350,7 +358,7 @@ func run(tb ev.TB, c authCase) {
 					ev.Fail(tb, "auth", "c18/framing/"+family(c.Entry), c, "%s: connection %d: after a v%d handshake the client sent %s (seq %d)\n%s", describe(c), id, hsVersion, e.ApiName, e.Seq, dump(cl))
 					return
 				}
-				if code != 0 || e.Outcome == "dropped-before" || e.Outcome == "closed" {
+				if code != 0 || e.Outcome == "dropped-before" || e.Outcome == "closed" || e.Outcome == "cut" {
 					failedAt = e.Seq
 				}
 				// a response the client must refuse
